@@ -86,6 +86,7 @@ EXPECT = [
     ("set_ncomp wrongly refused", ["C13"]), ("leaked tracers", ["C19", "C18"]), ("attribute views selected everything", ["C11"]),
     ("checkpoint_lengths raised", ["C07", "C06"]), ("recordings of synaptic states", ["C08", "C07"]), ("initial states of synapses", ["C10"]),
     ("set_ncomp left groups", ["C13"]), ("clamps of synaptic states", ["C08"]), ("jax.sparse ignored", ["C09", "C08", "C19"]),
+    ("channel flag columns kept dtype object", ["C19", "C13"]),
 ]
 
 
